@@ -1513,8 +1513,86 @@ def fmatch_worker(a):
 # csg_imc_solve
 # ----------------------------------------------------------------------------
 
-def imc_case(r):
+# spellings of the ranges in the index file (RangeParser strips blanks; tabs
+# are not blanks for it and imcio_read_index needs a blank after the name, so
+# tabs are not generated)
+IDX_SPELLINGS = ["plain", "multi-block", "strided", "blanks-after-commas",
+                 "blanks-around-colons", "several-blanks-after-name",
+                 "trailing-blanks", "strided-blanks-around-colons",
+                 "descending-stride"]
+
+
+def expand_range(text):
+    """rows named by a range string: blocks a | a:b | a:s:b separated by
+    commas, blanks anywhere (independent of tools::RangeParser)"""
+    rows = []
+    for bl in text.replace(" ", "").split(","):
+        t = [int(v) for v in bl.split(":")]
+        if len(t) == 1:
+            rows.append(t[0])
+        else:
+            a, st, b = (t[0], 1, t[1]) if len(t) == 2 else t
+            v = a
+            while (v <= b) if st > 0 else (v >= b):
+                rows.append(v)
+                v += st
+    return rows
+
+
+def idx_sets(r, n, spelling):
+    """-> list of (name, range text); the expanded row sets partition 1..n"""
+    comma = ", " if spelling == "blanks-after-commas" else ","
+    colon = " : " if "around-colons" in spelling else ":"
+    gap = "     " if spelling == "several-blanks-after-name" else " "
+    trail = "   " if spelling == "trailing-blanks" else ""
+    if spelling in ("blanks-after-commas", "trailing-blanks",
+                    "several-blanks-after-name"):
+        base = "multi-block" if r.rand() < 0.7 else "strided"
+    elif spelling == "blanks-around-colons":
+        base = "multi-block" if r.rand() < 0.5 else "plain"
+    elif spelling == "strided-blanks-around-colons":
+        base = "strided"
+    else:
+        base = spelling
+    sets = []
+    if base == "plain":
+        nint = min(int(r.randint(1, 4)), n)
+        cuts = sorted(r.choice(np.arange(1, n), size=nint - 1, replace=False)) \
+            if nint > 1 else []
+        bd = [0] + [int(c) for c in cuts] + [n]
+        for k in range(nint):
+            sets.append(["%d%s%d" % (bd[k] + 1, colon, bd[k + 1])])
+    elif base == "multi-block":
+        nch = int(r.randint(3, 6))
+        cuts = sorted(r.choice(np.arange(1, n), size=nch - 1, replace=False))
+        bd = [0] + [int(c) for c in cuts] + [n]
+        nint = 2
+        sets = [[] for _ in range(nint)]
+        for k in range(nch):
+            a, b = bd[k] + 1, bd[k + 1]
+            sets[k % nint].append("%d" % a if a == b and r.rand() < 0.5
+                                  else "%d%s%d" % (a, colon, b))
+    else:   # strided / descending-stride
+        st = int(r.randint(2, 4))
+        for k in range(st):
+            a = k + 1
+            b = a + ((n - a) // st) * st
+            if base == "descending-stride" and k == 0:
+                sets.append(["%d%s%d%s%d" % (b, colon, -st, colon, a)])
+            else:
+                sets.append(["%d%s%d%s%d" % (a, colon, st, colon, b)])
+    out = []
+    for k, blocks in enumerate(sets):
+        out.append(("I%d-X" % k, gap, comma.join(blocks) + trail))
+    order = list(range(len(out)))
+    r.shuffle(order)
+    return [out[k] for k in order]
+
+
+def imc_case(r, spelling="plain"):
     n = int(r.randint(2, 41))
+    if spelling != "plain":
+        n = int(r.randint(8, 41))
     kind = r.rand()
     scale = 10 ** r.uniform(-2, 3)
     if kind < 0.4:
@@ -1546,29 +1624,21 @@ def imc_case(r):
         A = ((U * 10 ** r.uniform(-1.5, 0, size=n)) @ V.T) * scale
         sym, reg, noreg = False, 0.0, True
     digits = int(r.randint(6, 12))
-    nint = int(r.randint(1, 4))
-    nint = min(nint, n)
-    cuts = sorted(r.choice(np.arange(1, n), size=nint - 1, replace=False)) \
-        if nint > 1 else []
-    bounds = [0] + [int(c) for c in cuts] + [n]
-    names = ["I%d-X" % k for k in range(nint)]
-    order = list(range(nint))
-    r.shuffle(order)
-    x = np.round(np.concatenate([0.1 + 0.02 * np.arange(bounds[k + 1] - bounds[k])
-                                 for k in range(nint)]), 6)
+    idx = idx_sets(r, n, spelling)
+    names = [t[0] for t in idx]
+    sets = [(t[0], expand_range(t[2])) for t in idx]
+    x = np.round(0.1 + 0.01 * np.arange(n), 6)    # every row identifiable
     return {"n": n, "sym": sym, "A": A, "b": b, "reg": reg, "digits": digits,
             "noreg": noreg,
-            "bounds": bounds, "names": names, "order": order, "x": x}
+            "idx": idx, "sets": sets, "names": names, "spelling": spelling,
+            "x": x}
 
 
 def imc_files(c):
     d = c["digits"]
     gmc = "".join(" ".join("%.*g" % (d, v) for v in row) + " \n" for row in c["A"])
     imc = "".join("%.10g %.*g\n" % (xx, d, v) for xx, v in zip(c["x"], c["b"]))
-    idx = ""
-    for k in c["order"]:
-        idx += "%s %d:%d\n" % (c["names"][k], c["bounds"][k] + 1,
-                               c["bounds"][k + 1])
+    idx = "".join("%s%s%s\n" % t for t in c["idx"])
     regtxt = "0" if c.get("noreg") else "%.*g" % (d, c["reg"])
     return {"in.gmc": gmc, "in.imc": imc, "in.idx": idx}, regtxt
 
@@ -1590,25 +1660,38 @@ def judge_imc(c, files, regtxt, wd):
     fam = "symmetric-A" if c["sym"] else "nonsymmetric-A"
     if c.get("noreg"):
         fam = "r-omitted"
-    for k in range(len(c["names"])):
-        fn = os.path.join(wd, c["names"][k] + ".dpot.imc")
-        lo, hi = c["bounds"][k], c["bounds"][k + 1]
+    xref = np.linalg.solve(M, rhs)
+    vtol = 1e-7 * (np.abs(xref).max() + 1e-300) * max(1.0, np.linalg.cond(M) * 1e-6)
+    for name, rows in c["sets"]:
+        fn = os.path.join(wd, name + ".dpot.imc")
+        ix = np.array(rows, dtype=int) - 1      # rows named by the index set
         if not os.path.exists(fn):
             fails.append(("imc_solve/%s/file-missing" % fam,
                           "table named in the index file was not written",
-                          {"file": c["names"][k] + ".dpot.imc"}))
+                          {"file": name + ".dpot.imc"}))
             continue
         gx, gy = read_table(fn)
-        if len(gx) != hi - lo or np.abs(gx - xin[lo:hi]).max() > \
-                1e-9 * (1 + np.abs(xin).max()):
-            fails.append(("imc_solve/%s/index-slice" % fam,
-                          "per-interaction table is not the index-file slice "
-                          "of the r column", {"file": c["names"][k] + ".dpot.imc",
-                                              "got_x": gx.tolist()[:6],
-                                              "expected_x": xin[lo:hi].tolist()[:6]}))
+        det = {"file": name + ".dpot.imc", "spelling": c.get("spelling"),
+               "index_line": [t for t in c.get("idx", []) if t[0] == name],
+               "rows_named": rows[:12], "rows_expected": len(rows),
+               "rows_got": len(gx), "got_r": gx.tolist()[:8],
+               "expected_r": xin[ix].tolist()[:8]}
+        if len(gx) != len(ix):
+            fails.append(("imc_solve/index-spelling/row-count",
+                          "per-interaction table does not have one row per "
+                          "member of the index set", det))
             continue
-        xs[lo:hi] = gy
-        seen[lo:hi] = True
+        if np.abs(gx - xin[ix]).max() > 1e-9 * (1 + np.abs(xin).max()) or \
+                np.abs(gy - xref[ix]).max() > vtol + 1.1 * print_tol(xref[ix], 10).max():
+            det["got_y"] = gy.tolist()[:8]
+            det["expected_y"] = xref[ix].tolist()[:8]
+            fails.append(("imc_solve/index-spelling/values",
+                          "rows of the per-interaction table are not the rows "
+                          "the index set names (r column / solution values)",
+                          det))
+            continue
+        xs[ix] = gy
+        seen[ix] = True
     if fails or not seen.all():
         return fails, None
     res = M @ xs - rhs
@@ -1618,7 +1701,6 @@ def judge_imc(c, files, regtxt, wd):
     tol = 1e-8 * scale + normM * np.linalg.norm(1.1 * print_tol(xs, 10))
     rel = float(np.linalg.norm(res) / max(scale, 1e-300))
     if not np.linalg.norm(res) <= tol:
-        xref = np.linalg.solve(M, rhs)
         # which equation does the output solve instead? (diagnosis only)
         alt = {}
         for nm, (M2, r2) in {
@@ -1657,7 +1739,9 @@ def imc_worker(a):
         counters[k] = counters.get(k, 0) + v
     worst = {}
     for ci in range(n):
-        c = imc_case(r)
+        spelling = IDX_SPELLINGS[(shard + ci) % len(IDX_SPELLINGS)]
+        c = imc_case(r, spelling)
+        cnt("imc_index_spelling/" + spelling)
         files, regtxt = imc_files(c)
         wd = os.path.join(scratch, "i%d_%d" % (shard, ci))
         os.makedirs(wd, exist_ok=True)
@@ -1668,7 +1752,8 @@ def imc_worker(a):
             cmd += ["-r", regtxt]
         rc, out, err, to = run_exe(cmd, wd, 300)
         wit = {"cmd": " ".join(["csg_imc_solve"] + cmd[1:]), "files": files,
-               "n": c["n"], "symmetric": c["sym"], "r": regtxt}
+               "n": c["n"], "symmetric": c["sym"], "r": regtxt,
+               "index_spelling": c["spelling"]}
         if to or rc != 0:
             emit({"t": "abnormal", "what": "csg_imc_solve n=%d" % c["n"],
                   "rc": rc, "timed_out": to, "err": err[-6000:], "witness": wit})
@@ -1738,13 +1823,13 @@ def replay(path, a):
     else:
         rc, out, err, to = run_exe([a["imc"]] + args, wd)
         print("csg_imc_solve rc=%s" % rc)
-        bounds, names = [0], []
-        lines = [ln.split() for ln in w["files"]["in.idx"].split("\n") if ln.strip()]
-        lines.sort(key=lambda f: int(f[1].split(":")[0]))
-        for f in lines:
-            names.append(f[0])
-            bounds.append(int(f[1].split(":")[1]))
-        c = {"n": w["n"], "sym": w["symmetric"], "names": names, "bounds": bounds}
+        sets = []
+        for ln in w["files"]["in.idx"].split("\n"):
+            if ln.strip():
+                nm_, rest = ln.strip().split(" ", 1)
+                sets.append((nm_, expand_range(rest)))
+        c = {"n": w["n"], "sym": w["symmetric"], "sets": sets,
+             "names": [t[0] for t in sets], "noreg": "-r" not in args}
         fails, rel = judge_imc(c, w["files"], w["r"], wd) if rc == 0 else \
             ([("crash", err[-2000:], {})], None)
         print("residual_rel", rel)
